@@ -12,6 +12,7 @@ for f in $(ls $tmp | sort); do
   n=$(grep -c "VIOLATION" $tmp/$f)
   first=$(grep VIOLATION $tmp/$f | head -1 | sed 's/.*replays\/[A-Z0-9]*\///; s/\.json.*//')
   if [ "$n" -gt 0 ]; then echo "CAUGHT  $name by $prop ($n obligations, e.g. $first)"; else echo "MISSED  $name by $prop"; fi
-done | tee $tmp/RESULTS.new
-if [ "$pat" = "." ]; then cp $tmp/RESULTS.new seeded/RESULTS.txt; fi
-rm -rf $tmp
+done > ${tmp}.results
+cat ${tmp}.results
+if [ "$pat" = "." ]; then cp ${tmp}.results seeded/RESULTS.txt; fi
+rm -rf $tmp ${tmp}.results
